@@ -421,7 +421,12 @@ simcam_set(struct Camera* camera, struct CameraProperties* settings)
         .y = shape->dims.height,
     };
 
-    size_t nbytes = aligned_bytes_of_image(shape);
+    // The streamer renders at full resolution and bins in place, so the
+    // buffers have to hold the un-binned image, not just the binned one.
+    struct ImageShape full = { 0 };
+    uint32_t origin[2] = { 0, 0 };
+    compute_full_resolution_shape_and_offset(self, &full, origin);
+    size_t nbytes = aligned_bytes_of_image(&full);
     CHECK(self->im.frame_data = checked_realloc(self->im.frame_data, nbytes));
     CHECK(self->im.render_data = checked_realloc(self->im.render_data, nbytes));
 
